@@ -24,6 +24,7 @@ struct GenCfg {
     bool autoBlock = true;     // allow automatic / environment block size
     bool twoGroupings = false; // C08
     bool histories = false;    // C12
+    int historyOneIn = 1;      // with histories: a staged history for one case in N, a single full call otherwise
     bool lstops = false;       // generate upper working level 0..H
     bool schedules = false;    // C03
     int executors = 1;         // bit mask of allowed executors (bit0 sequential, bit1 openmp, bit2 specx, bit3 starpu)
